@@ -50,6 +50,14 @@ func (m *noFailMonitor) AfterStep(rc *RunCtx, i int, st *Step, res *StepResult) 
 	if _, ex := rc.Excluded[st.C]; ex {
 		return nil // the server ended this client's session on its own; the SDK finds out by failing
 	}
+	if i < len(rc.Trace) && rc.Trace[i].Op == "par" && st.Op != "par" && classify(res.Err) == "crash" {
+		// the server process was killed inside this parallel section: calls in flight are lost
+		for _, d := range rc.Trace[i].Sched {
+			if strings.HasPrefix(d, "crash!") {
+				return nil
+			}
+		}
+	}
 	if i < len(rc.Trace) && rc.Trace[i].Op == "par" && st.Op != "par" {
 		// inside a parallel section the housekeeping task may end a silent client's
 		// session between two of its calls (and the client may then deactivate itself,
